@@ -264,16 +264,33 @@ def run_gentest(case, timeout=180):
     return p.returncode, p.stdout, p.stderr
 
 
+def earlier_generation(case, script='test_Job.py', timeout=180):
+    """An earlier, separate gentest run in the same working directory, for another command, under a script name that differs
+    from the later one in letter case only; what it left (script, ref/<Name>/...) is there before the generation under test."""
+    env = common.child_env({'HOME': case['wd'] + '_home'})
+    gtmp = os.path.join(case['wd'] + '_tmp')
+    os.makedirs(gtmp, exist_ok=True)
+    os.makedirs(case['wd'] + '_home', exist_ok=True)
+    env['TMPDIR'] = gtmp
+    with open(os.path.join(case['wd'], 'pre.py'), 'w') as f:
+        f.write("print('first line of the earlier command')\nprint('second line')\n")
+    driver = ('import sys, json\nfrom tdda.referencetest.gentest import gentest_wrapper\n'
+              'gentest_wrapper(json.loads(sys.argv[1]))\n')
+    p = subprocess.run([common.PY, '-W', 'ignore', '-c', driver, json.dumps(['-n', '2', '%s pre.py' % common.PY, script])],
+                       cwd=case['wd'], env=env, stdout=subprocess.PIPE, stderr=subprocess.PIPE, text=True, timeout=timeout)
+    return p.returncode
+
+
 RE_TEST = re.compile(r'^(test_\w+) \(.*\) \.\.\. (ok|FAIL|ERROR|skipped.*)$', re.M)
 
 
-def run_script(case, timeout=180):
+def run_script(case, timeout=180, script='test_job.py'):
     """Runs the generated test script; returns {test name: 'pass'|'fail'|'error'} and raw output."""
     env = common.child_env({'HOME': os.environ.get('HOME', '/root')})
     env['TMPDIR'] = os.path.join(case['wd'] + '_tmp')
     env['HOME'] = case['wd'] + '_home'
     env.pop('TMPDIR_SET_BY_GENTEST', None)
-    p = subprocess.run([common.PY, '-W', 'ignore', 'test_job.py', '-v'], cwd=case['wd'], env=env, stdout=subprocess.PIPE,
+    p = subprocess.run([common.PY, '-W', 'ignore', script, '-v'], cwd=case['wd'], env=env, stdout=subprocess.PIPE,
                        stderr=subprocess.PIPE, text=True, timeout=timeout)
     out = p.stderr + '\n' + p.stdout
     res = {}
